@@ -992,12 +992,10 @@ impl Debug for ScmpTracerouteReplyMessageView {
 pub struct ScmpUnknownMessageView([u8]);
 gen_view_impl!(ScmpUnknownMessageView, ScmpUnknownMessageLayout);
 impl ScmpUnknownMessageView {
-    gen_field_read_and_write!(
-        message_type,
-        set_message_type,
-        ScmpUnknownMessageLayout::TYPE_RNG,
-        u8
-    );
+    gen_field_read!(message_type, ScmpUnknownMessageLayout::TYPE_RNG, u8);
+    // Changing the type re-types the enclosing payload view: the new type's view may be larger than
+    // the bytes this message was validated for. Unsafe like the type setters of all other SCMP views.
+    gen_unsafe_field_write!(set_message_type, ScmpUnknownMessageLayout::TYPE_RNG, u8);
 
     gen_field_read_and_write!(code, set_code, ScmpUnknownMessageLayout::CODE_RNG, u8);
 
